@@ -911,12 +911,19 @@ pub assume_specification [<{q} as PartialEq>::eq] (a: &{q}, b: &{q}) -> (r: bool
         # closure contracts: the k-th closure gets typed parameters, a named result and an ensures clause (annotation only;
         # the closure body is untouched)
         for k, spec in (closures or {}).items():
+            kid = k if not isinstance(k, str) else '_' + re.sub(r'\W+', '_', k).strip('_')
+            if isinstance(k, str):
+                # a closure named by its parameter list as written (`|m|`): robust against closures added before it
+                hits = [i for i, C0 in enumerate(e['closures']) if ''.join(src[C0['span'][0]:C0['body'][0]].decode().split()) == ''.join(k.split())]
+                if len(hits) != 1:
+                    raise LostAnchor(f'{fn}: closure {k} matches {len(hits)} closures')
+                k = hits[0]
             if k >= len(e['closures']):
                 raise LostAnchor(f'{fn}: closure #{k} not found')
             C = e['closures'][k]
             cs, ct = C['span']
             cbs, cbt = C['body']
-            cid = f'{fid}.closure{k}.ensures'
+            cid = f'{fid}.closure{kid}.ensures'
             self.clauses[cid] = {'kind': 'ensures', 'fn': fid, 'text': ' '.join(spec['ensures'].split())}
             clause_list.append(cid)
             is_block = src[cbs:cbs + 1] == b'{'
